@@ -10,6 +10,10 @@ use routee_compass_powertrain::routee::prediction::interpolation::interpolation_
 use routee_compass_powertrain::routee::prediction::interpolation::utils::linspace;
 use routee_compass_powertrain::routee::prediction::{load_prediction_model, model_type::ModelType, PredictionModel};
 use serde_json::json;
+use routee_compass::app::compass::config::traversal_model::energy_model_vehicle_builders::VehicleBuilder;
+use routee_compass_core::model::state::state_model::StateModel;
+use routee_compass_core::model::traversal::traversal_model_error::TraversalModelError;
+use routee_compass_powertrain::routee::vehicle::VehicleType;
 use std::path::PathBuf;
 use std::sync::Arc;
 use verif_harness::*;
@@ -592,6 +596,13 @@ struct SCase {
     /// sequence case: every call on the shared instance is also asked of a fresh instance built for that call alone
     #[serde(default)]
     fresh_check: bool,
+    /// built through the configuration path: VehicleBuilder::build on a JSON vehicle entry (get_model_record_from_params)
+    #[serde(default)]
+    via_config: bool,
+    /// nested declaration: the underlying model of the (outer) grid is itself an interpolated model with these
+    /// (coarse) bounds and bins over smartcore: (s_lo, s_hi, s_bins, g_lo, g_hi, g_bins)
+    #[serde(default)]
+    inner: Option<(f64, f64, usize, f64, f64, usize)>,
     /// (raw speed, unit index, raw grade, unit index, kind)
     queries: Vec<(f64, usize, f64, usize, String)>,
 }
@@ -601,13 +612,49 @@ fn model_dir() -> PathBuf {
     PathBuf::from(repo).join("rust/routee-compass-powertrain/src/routee/test")
 }
 
+/// a vehicle built by the configuration path, seen as a PredictionModel: energy consumed over one distance unit
+/// from an empty state = the rate of the vehicle's prediction model record (checked bit for bit on the underlying model)
+struct ConfigVehicle {
+    vehicle: Arc<dyn VehicleType>,
+    sm: StateModel,
+    eu: EnergyRateUnit,
+}
+impl PredictionModel for ConfigVehicle {
+    fn predict(&self, speed: (Speed, SpeedUnit), grade: (Grade, GradeUnit)) -> Result<(EnergyRate, EnergyRateUnit), TraversalModelError> {
+        let mut state = self.sm.initial_state().map_err(|e| TraversalModelError::BuildError(e.to_string()))?;
+        self.vehicle.consume_energy(speed, grade, (Distance::new(1.0), self.eu.associated_distance_unit()), &mut state, &self.sm)?;
+        let e = self
+            .sm
+            .get_energy(&state, &"energy_liquid".to_string(), &self.eu.associated_energy_unit())
+            .map_err(|e| TraversalModelError::BuildError(e.to_string()))?;
+        Ok((EnergyRate::new(e.as_f64()), self.eu))
+    }
+}
+
+fn interp_type(under: ModelType, b: (f64, f64, usize, f64, f64, usize)) -> ModelType {
+    ModelType::Interpolate {
+        underlying_model_type: Box::new(under),
+        speed_lower_bound: Speed::new(b.0),
+        speed_upper_bound: Speed::new(b.1),
+        speed_bins: b.2,
+        grade_lower_bound: Grade::new(b.3),
+        grade_upper_bound: Grade::new(b.4),
+        grade_bins: b.5,
+    }
+}
+
 fn emit_sg(st: &mut Stream, c: &SCase, gen: serde_json::Value) {
     let id = st.next_id();
     let path = model_dir().join(FILES[c.file]);
     let (su, gu, eu) = (SU[c.su], GU[c.gu], EU[c.eu]);
     // the underlying model, loaded by the harness and sampled exactly as `new` does: unit distance through the record
-    let under = load_prediction_model("u".to_string(), &path, ModelType::Smartcore, su, gu, eu, Some(EnergyRate::new(0.0)), None, None)
-        .expect("bundled model loads");
+    let under_type = match c.inner {
+        None => ModelType::Smartcore,
+        Some(b) => interp_type(ModelType::Smartcore, b),
+    };
+    let outer = (c.s_lo, c.s_hi, c.s_bins, c.g_lo, c.g_hi, c.g_bins);
+    let under = load_prediction_model("u".to_string(), &path, under_type.clone(), su, gu, eu, Some(EnergyRate::new(0.0)), None, None)
+        .expect("declared underlying model loads");
     let du = eu.associated_distance_unit();
     let xs = catch(|| linspace(c.s_lo, c.s_hi, c.s_bins));
     let ys = catch(|| linspace(c.g_lo, c.g_hi, c.g_bins));
@@ -639,36 +686,42 @@ fn emit_sg(st: &mut Stream, c: &SCase, gen: serde_json::Value) {
     // the real interpolated model
     let build_model = || -> Result<Result<Arc<dyn PredictionModel>, String>, String> {
         catch(std::panic::AssertUnwindSafe(|| {
-        if c.via_ops {
-            let mt = ModelType::Interpolate {
-                underlying_model_type: Box::new(ModelType::Smartcore),
-                speed_lower_bound: Speed::new(c.s_lo),
-                speed_upper_bound: Speed::new(c.s_hi),
-                speed_bins: c.s_bins,
-                grade_lower_bound: Grade::new(c.g_lo),
-                grade_upper_bound: Grade::new(c.g_hi),
-                grade_bins: c.g_bins,
-            };
-            load_prediction_model("i".to_string(), &path, mt, su, gu, eu, Some(EnergyRate::new(0.0)), None, None)
-                .map(|rec| rec.prediction_model.clone())
+            if c.via_config {
+                // the configuration path: a JSON vehicle entry -> VehicleBuilder::build -> get_model_record_from_params
+                let entry = json!({
+                    "name": "cfg", "type": "ice",
+                    "model_input_file": path.to_string_lossy(),
+                    "model_type": serde_json::to_value(interp_type(under_type.clone(), outer)).unwrap(),
+                    "speed_unit": serde_json::to_value(su).unwrap(),
+                    "grade_unit": serde_json::to_value(gu).unwrap(),
+                    "energy_rate_unit": serde_json::to_value(eu).unwrap(),
+                    "ideal_energy_rate": 0.0,
+                    "real_world_energy_adjustment": 1.0
+                });
+                let vehicle = VehicleBuilder::ICE.build(&entry).map_err(|e| e.to_string())?;
+                let sm = StateModel::new(vehicle.state_features());
+                Ok(Arc::new(ConfigVehicle { vehicle, sm, eu }) as Arc<dyn PredictionModel>)
+            } else if c.via_ops {
+                load_prediction_model("i".to_string(), &path, interp_type(under_type.clone(), outer), su, gu, eu, Some(EnergyRate::new(0.0)), None, None)
+                    .map(|rec| rec.prediction_model.clone())
+                    .map_err(|e| e.to_string())
+            } else {
+                InterpolationSpeedGradeModel::new(
+                    &path,
+                    under_type.clone(),
+                    "i".to_string(),
+                    su,
+                    (Speed::new(c.s_lo), Speed::new(c.s_hi)),
+                    c.s_bins,
+                    gu,
+                    (Grade::new(c.g_lo), Grade::new(c.g_hi)),
+                    c.g_bins,
+                    eu,
+                )
+                .map(|m| Arc::new(m) as Arc<dyn PredictionModel>)
                 .map_err(|e| e.to_string())
-        } else {
-            InterpolationSpeedGradeModel::new(
-                &path,
-                ModelType::Smartcore,
-                "i".to_string(),
-                su,
-                (Speed::new(c.s_lo), Speed::new(c.s_hi)),
-                c.s_bins,
-                gu,
-                (Grade::new(c.g_lo), Grade::new(c.g_hi)),
-                c.g_bins,
-                eu,
-            )
-            .map(|m| Arc::new(m) as Arc<dyn PredictionModel>)
-            .map_err(|e| e.to_string())
-        }
-    }))
+            }
+        }))
     };
     let built = build_model();
     let mut history_dependent: Vec<String> = vec![];
@@ -776,7 +829,10 @@ fn emit_sg(st: &mut Stream, c: &SCase, gen: serde_json::Value) {
     st.count(&format!("vehicle:{}", FILES[c.file]));
     st.count(&format!("model-units:{}/{}", su, gu));
     st.count(&format!("bins:{}x{}", c.s_bins.min(9), c.g_bins.min(9)));
-    st.count(if c.via_ops { "built-by:load_prediction_model" } else { "built-by:InterpolationSpeedGradeModel::new" });
+    st.count(if c.via_config { "built-by:VehicleBuilder::build(config entry)" } else if c.via_ops { "built-by:load_prediction_model" } else { "built-by:InterpolationSpeedGradeModel::new" });
+    if c.inner.is_some() {
+        st.count("nested:interpolate-over-interpolate-over-smartcore");
+    }
     if !rate_equals_energy {
         st.count("unit-distance-energy-differs-from-rate");
     }
@@ -883,6 +939,20 @@ fn gen_sg(r: &mut Rng, family: &str, s_bins: usize, g_bins: usize) -> SCase {
         let rg = if qgu == gu { gv } else { back_grade(gv, GU[gu], GU[qgu]) };
         queries.push((rs, qsu, rg, qgu, k.to_string()));
     }
+    let mut inner: Option<(f64, f64, usize, f64, f64, usize)> = None;
+    if family == "nested" {
+        // a coarse inner table (slightly wider than the outer grid) between the outer grid and smartcore
+        let (ws, wg) = ((s_hi - s_lo) * 0.125, (g_hi - g_lo) * 0.125);
+        inner = Some((s_lo - ws, s_hi + ws, r.range(2, 5) as usize, g_lo - wg, g_hi + wg, r.range(2, 4) as usize));
+        for q in queries.iter_mut().take(3) {
+            *q = (xs[r.below(xs.len() as u64) as usize], su, ys[r.below(ys.len() as u64) as usize], gu, "grid-point".to_string());
+        }
+    }
+    if family == "config" {
+        for q in queries.iter_mut().take(3) {
+            *q = (xs[r.below(xs.len() as u64) as usize], su, ys[r.below(ys.len() as u64) as usize], gu, "grid-point".to_string());
+        }
+    }
     let mut fresh_check = false;
     if family == "sequence" {
         // one instance, 3-10 calls: consecutive calls re-use the SAME raw numbers under other units, repeat a call,
@@ -916,7 +986,7 @@ fn gen_sg(r: &mut Rng, family: &str, s_bins: usize, g_bins: usize) -> SCase {
         queries = seq;
     }
     let _ = fresh_check;
-    SCase { family: family.to_string(), file, su, gu, eu, s_lo, s_hi, s_bins, g_lo, g_hi, g_bins, via_ops: r.chance(1, 2), fresh_check, queries }
+    SCase { family: family.to_string(), file, su, gu, eu, s_lo, s_hi, s_bins, g_lo, g_hi, g_bins, via_ops: r.chance(1, 2), fresh_check, via_config: family == "config", inner, queries }
 }
 
 fn det_sg() -> Vec<SCase> {
@@ -935,7 +1005,7 @@ fn det_sg() -> Vec<SCase> {
         queries.push((50.0, 0, 0.0, 1, "inside".to_string()));
         queries.push((150.0, 0, 30.0, 1, "outside-both".to_string()));
         queries.push((-3.0, 2, -300.0, 2, "outside-both".to_string()));
-        out.push(SCase { family: "vehicle-grid-sweep".into(), file, su: 0, gu: 0, eu: if file == 0 { 0 } else { 1 }, s_lo: 0.0, s_hi: 100.0, s_bins, g_lo: -0.2, g_hi: 0.2, g_bins, via_ops: file % 2 == 0, fresh_check: false, queries });
+        out.push(SCase { family: "vehicle-grid-sweep".into(), file, su: 0, gu: 0, eu: if file == 0 { 0 } else { 1 }, s_lo: 0.0, s_hi: 100.0, s_bins, g_lo: -0.2, g_hi: 0.2, g_bins, via_ops: file % 2 == 0, fresh_check: false, via_config: false, inner: None, queries });
     }
     // sequences of calls on ONE instance of the real smartcore-backed models (Bolt, Camry): the same raw numbers under
     // different units in consecutive calls, repeats, and the same units with other numbers
@@ -953,16 +1023,54 @@ fn det_sg() -> Vec<SCase> {
             sq(40.0, 0, -0.05, 0, "seq-repeat"),
             sq(40.0, 1, -0.05, 2, "seq-same-numbers-both-units-changed"),
         ];
-        out.push(SCase { family: "sequence-one-instance".into(), file, su: 0, gu: 0, eu, s_lo: 0.0, s_hi: 100.0, s_bins: 21, g_lo: -0.2, g_hi: 0.2, g_bins: 9, via_ops: file == 0, fresh_check: true, queries });
+        out.push(SCase { family: "sequence-one-instance".into(), file, su: 0, gu: 0, eu, s_lo: 0.0, s_hi: 100.0, s_bins: 21, g_lo: -0.2, g_hi: 0.2, g_bins: 9, via_ops: file == 0, fresh_check: true, via_config: false, inner: None, queries });
+    }
+    // the configuration path for every speed-unit x grade-unit pair of the model declaration: bounds written in the
+    // model's own units (0..100 mph and -0.2..0.2 decimal expressed in them); every configured node, inside, outside
+    for su in 0..3usize {
+        for gu in 0..3usize {
+            let (ss, gs) = ([1.0, 1.6, 0.45][su], [1.0, 100.0, 1000.0][gu]);
+            let (s_lo, s_hi, g_lo, g_hi) = (0.0, 100.0 * ss, -0.2 * gs, 0.2 * gs);
+            let (s_bins, g_bins) = (5usize, 3usize);
+            let xs = linspace(s_lo, s_hi, s_bins);
+            let ys = linspace(g_lo, g_hi, g_bins);
+            let mut queries = vec![];
+            for &x in &xs {
+                for &y in &ys {
+                    queries.push((x, su, y, gu, "grid-point".to_string()));
+                }
+            }
+            queries.push((40.0 * ss, su, 0.05 * gs, gu, "inside".to_string()));
+            queries.push((50.0, 0, 0.0, 0, "inside".to_string()));
+            queries.push((150.0 * ss, su, 0.3 * gs, gu, "outside-both".to_string()));
+            queries.push((-5.0 * ss, su, -0.5 * gs, gu, "outside-both".to_string()));
+            out.push(SCase { family: "config-units".into(), file: (su + gu) % 4, su, gu, eu: 0, s_lo, s_hi, s_bins, g_lo, g_hi, g_bins, via_ops: false, fresh_check: false, via_config: true, inner: None, queries });
+        }
+    }
+    // nested declaration: a fine outer grid over a coarse 5x3 inner table over smartcore; at the outer nodes the value is
+    // the INNER interpolated model's value
+    for (k, (file, eu)) in [(0usize, 0usize), (1, 1), (2, 1)].into_iter().enumerate() {
+        let (s_bins, g_bins) = (9usize, 7usize);
+        let xs = linspace(5.0, 85.0, s_bins);
+        let ys = linspace(-0.15, 0.15, g_bins);
+        let mut queries = vec![];
+        for &x in &xs {
+            for &y in &ys {
+                queries.push((x, 0, y, 0, "grid-point".to_string()));
+            }
+        }
+        queries.push((33.0, 0, 0.02, 0, "inside".to_string()));
+        queries.push((120.0, 0, 0.5, 0, "outside-both".to_string()));
+        out.push(SCase { family: "nested-interpolate".into(), file, su: 0, gu: 0, eu, s_lo: 5.0, s_hi: 85.0, s_bins, g_lo: -0.15, g_hi: 0.15, g_bins, via_ops: k != 0, fresh_check: false, via_config: k == 2, inner: Some((0.0, 100.0, 5, -0.2, 0.2, 3)), queries });
     }
     // smallest grids and degenerate configurations
     let q = vec![(10.0, 0, 0.0, 0, "inside".to_string()), (0.0, 0, -0.1, 0, "grid-point".to_string()), (99.0, 0, 0.5, 0, "outside-high".to_string())];
     let qn = vec![(f64::NAN, 0, 0.0, 0, "nan-speed".to_string()), (10.0, 0, f64::NAN, 0, "nan-grade".to_string()), (f64::INFINITY, 0, f64::NEG_INFINITY, 0, "infinite".to_string())];
-    out.push(SCase { family: "non-finite-query".into(), file: 0, su: 0, gu: 0, eu: 0, s_lo: 0.0, s_hi: 60.0, s_bins: 3, g_lo: -0.1, g_hi: 0.1, g_bins: 3, via_ops: false, fresh_check: false, queries: qn });
-    out.push(SCase { family: "bins-2x2".into(), file: 0, su: 0, gu: 0, eu: 0, s_lo: 0.0, s_hi: 60.0, s_bins: 2, g_lo: -0.1, g_hi: 0.1, g_bins: 2, via_ops: false, fresh_check: false, queries: q.clone() });
-    out.push(SCase { family: "bounds-reversed".into(), file: 0, su: 0, gu: 0, eu: 0, s_lo: 60.0, s_hi: 0.0, s_bins: 3, g_lo: -0.1, g_hi: 0.1, g_bins: 3, via_ops: true, fresh_check: false, queries: q.clone() });
-    out.push(SCase { family: "bounds-equal".into(), file: 0, su: 0, gu: 0, eu: 0, s_lo: 30.0, s_hi: 30.0, s_bins: 3, g_lo: -0.1, g_hi: 0.1, g_bins: 3, via_ops: false, fresh_check: false, queries: q.clone() });
-    out.push(SCase { family: "bins-1".into(), file: 0, su: 0, gu: 0, eu: 0, s_lo: 0.0, s_hi: 60.0, s_bins: 1, g_lo: -0.1, g_hi: 0.1, g_bins: 3, via_ops: false, fresh_check: false, queries: q.clone() });
+    out.push(SCase { family: "non-finite-query".into(), file: 0, su: 0, gu: 0, eu: 0, s_lo: 0.0, s_hi: 60.0, s_bins: 3, g_lo: -0.1, g_hi: 0.1, g_bins: 3, via_ops: false, fresh_check: false, via_config: false, inner: None, queries: qn });
+    out.push(SCase { family: "bins-2x2".into(), file: 0, su: 0, gu: 0, eu: 0, s_lo: 0.0, s_hi: 60.0, s_bins: 2, g_lo: -0.1, g_hi: 0.1, g_bins: 2, via_ops: false, fresh_check: false, via_config: false, inner: None, queries: q.clone() });
+    out.push(SCase { family: "bounds-reversed".into(), file: 0, su: 0, gu: 0, eu: 0, s_lo: 60.0, s_hi: 0.0, s_bins: 3, g_lo: -0.1, g_hi: 0.1, g_bins: 3, via_ops: true, fresh_check: false, via_config: false, inner: None, queries: q.clone() });
+    out.push(SCase { family: "bounds-equal".into(), file: 0, su: 0, gu: 0, eu: 0, s_lo: 30.0, s_hi: 30.0, s_bins: 3, g_lo: -0.1, g_hi: 0.1, g_bins: 3, via_ops: false, fresh_check: false, via_config: false, inner: None, queries: q.clone() });
+    out.push(SCase { family: "bins-1".into(), file: 0, su: 0, gu: 0, eu: 0, s_lo: 0.0, s_hi: 60.0, s_bins: 1, g_lo: -0.1, g_hi: 0.1, g_bins: 3, via_ops: false, fresh_check: false, via_config: false, inner: None, queries: q.clone() });
     out
 }
 
@@ -1013,7 +1121,7 @@ fn main() {
                 let (sb, gb) = (gen["s_bins"].as_u64().unwrap() as usize, gen["g_bins"].as_u64().unwrap() as usize);
                 let fam = gen["family"].as_str().unwrap_or("random").to_string();
                 // consume what the generating run drew before gen_sg: the two bin counts and the family choice
-                let _ = (r.range(2, 9), r.range(2, 9), r.chance(1, 3));
+                let _ = (r.range(2, 9), r.range(2, 9), r.below(6));
                 gen_sg(&mut r, &fam, sb, gb)
             };
             emit_sg(&mut st, &c, gen);
@@ -1042,7 +1150,7 @@ fn main() {
             let state = r.0;
             let mut r = r;
             let (sb, gb) = (r.range(2, 9) as usize, r.range(2, 9) as usize);
-            let fam = if r.chance(1, 3) { "sequence" } else { "random" };
+            let fam = ["sequence", "sequence", "config", "nested", "random", "random"][r.below(6) as usize];
             let c = gen_sg(&mut r, fam, sb, gb);
             emit_sg(&mut st, &c, json!({"kind": "rand", "state": state.to_string(), "s_bins": sb, "g_bins": gb, "family": fam}));
         }
